@@ -1,7 +1,429 @@
 """Protocol operations on stand-alone _PackedBoolArray objects (array level of C05).
-Operation `p.xyz` is method `op_p_xyz(self, pos, kv)`; returns the observation string."""
+Operation `p.xyz` is method `op_p_xyz(self, pos, kv)`; returns the observation string.
+
+Every operation is applied to the real `_PackedBoolArray` AND to a twin plain `np.ndarray(dtype=bool)`
+(slices of packed arrays are twinned by numpy slices of the twin, so both sides have view semantics).
+Where the two disagree the observation is prefixed with `NUMPY-DIFF ` (three-way comparison
+packed / numpy / Lean model: the model sees the unprefixed protocol line and answers what the code
+answers, so a NUMPY-DIFF observation always shows up as a difference).
+
+The twin is numpy restricted to the domain the class documents by explicit range checks
+(slice start in [0, size], slice stop in [-size, size] after normalisation, step 1, integer indices
+in [0, size), values of the right length, no broadcasting, `sum(shape=…)` only on aligned arrays
+with the documented shape rules): outside this domain the twin raises as well.  Anything the class
+rejects *inside* the domain, or answers differently, is flagged.
+"""
+import numpy as np
+
+from healsparse.packedBoolArray import _PackedBoolArray as PBA
+
+
+class Unsupported(ValueError):
+    """Raised by the twin for inputs outside the documented domain of _PackedBoolArray."""
+
+
+def _bits(s):
+    if s in ('_', ''):
+        return np.zeros(0, dtype=np.bool_)
+    return np.array([c == '1' for c in s], dtype=np.bool_)
+
+
+def _enc(arr):
+    return ''.join('1' if v else '0' for v in np.asarray(arr).tolist())
+
+
+def _optint(kv, k):
+    v = kv.get(k)
+    return None if v is None or v == 'none' else int(v)
+
+
+def _ints(s):
+    return [] if s in ('_', '', None) else [int(t) for t in s.split(',')]
+
+
+def _bytes(s):
+    body = s[1:]
+    return np.array([int(t) for t in body.split('.')] if body else [], dtype=np.uint8)
+
+
+def _encbytes(a):
+    return 'b' + '.'.join(str(int(v)) for v in np.asarray(a).tolist())
 
 
 class PackedOps(object):
     def packed_reset(self):
-        self.parrs = {}
+        self.parrs = {}      # name -> _PackedBoolArray
+        self.ptwin = {}      # name -> np.ndarray(bool) (a numpy view where the packed one is a view)
+
+    # ---- plumbing ------------------------------------------------------
+    def _p(self, name):
+        if not hasattr(self, 'parrs'):
+            self.packed_reset()
+        if name not in self.parrs:
+            from real import BadOp
+            raise BadOp('no such packed array ' + name)
+        return self.parrs[name], self.ptwin[name]
+
+    def _state_diff(self):
+        """First object whose packed content differs from its twin (after a mutation)."""
+        for n in sorted(self.parrs):
+            try:
+                a = np.asarray(self.parrs[n])
+            except Exception as e:   # pragma: no cover
+                return "%s:asarray-raised-%s" % (n, type(e).__name__)
+            t = self.ptwin[n]
+            if a.shape != t.shape or np.any(a != t):
+                return "%s:packed=%s,numpy=%s" % (n, _enc(a), _enc(t))
+        return None
+
+    def _both(self, fpacked, ftwin, mutating=False, show=str):
+        """Run the packed operation and the twin operation; build the observation."""
+        pe = te = None
+        pr = tr = None
+        try:
+            pr = fpacked()
+        except Exception as e:
+            pe = e
+        try:
+            tr = ftwin()
+        except Exception as e:
+            te = e
+        if pe is not None:
+            if te is not None:
+                sd = self._state_diff() if mutating else None
+                if sd is not None:
+                    return 'NUMPY-DIFF err %s state-after-error %s' % (type(pe).__name__, sd)
+                raise pe                                  # both reject: plain `err <Class>`
+            return 'NUMPY-DIFF err %s numpy=accepts' % type(pe).__name__
+        obs = show(pr) if not mutating else 'ok'
+        if te is not None:
+            return 'NUMPY-DIFF %s numpy-raised=%s' % (obs, type(te).__name__)
+        if not mutating:
+            tobs = show(tr)
+            if tobs != obs:
+                return 'NUMPY-DIFF %s numpy=%s' % (obs, tobs)
+        sd = self._state_diff() if mutating else None
+        if sd is not None:
+            return 'NUMPY-DIFF %s %s' % (obs, sd)
+        return obs
+
+    def _operand(self, kv):
+        """-> (kind, packed-side value, twin-side value)"""
+        if 'v' in kv:
+            b = kv['v'] == 'T'
+            return 'bool', b, b
+        if 'vals' in kv:
+            v = _bits(kv['vals'])
+            return 'arr', v, v.copy()
+        q, tq = self._p(kv['rhs'])
+        return 'pba', q, tq
+
+    # ---- construction --------------------------------------------------
+    def op_p_new(self, pos, kv):
+        if not hasattr(self, 'parrs'):
+            self.packed_reset()
+        n, start, stop = _optint(kv, 'n'), _optint(kv, 'start'), _optint(kv, 'stop')
+        data = _bytes(kv['data']) if 'data' in kv else None
+
+        def fp():
+            return PBA(size=n, data_buffer=data, start_index=start, stop_index=stop)
+
+        def ft():
+            if n is not None and data is not None:
+                raise Unsupported('both')
+            s = 0 if start is None else start
+            if s < 0 or s > 7:
+                raise Unsupported('start')
+            if data is not None:
+                e = len(data) * 8 if stop is None else stop
+                if e < len(data) * 8 - 7 or e > len(data) * 8 or e < s:
+                    raise Unsupported('stop')
+                return np.unpackbits(data, bitorder='little').astype(np.bool_)[s:e].copy()
+            if stop is not None:
+                raise Unsupported('stop without buffer')
+            return np.zeros(0 if n is None else n, dtype=np.bool_)      # negative n: ValueError
+
+        return self._make(pos[0], fp, ft)
+
+    def _make(self, name, fp, ft):
+        made = {}
+
+        def fp2():
+            made['p'] = fp()
+            return made['p']
+
+        def ft2():
+            made['t'] = ft()
+            return made['t']
+
+        def show(p):
+            return 'ok'
+        obs = self._both(fp2, ft2, show=show)
+        if 'p' in made:
+            self.parrs[name] = made['p']
+            if 't' in made:
+                self.ptwin[name] = made['t']
+            else:
+                self.ptwin[name] = np.asarray(made['p']).copy()
+            if obs == 'ok':
+                a = np.asarray(made['p'])
+                t = self.ptwin[name]
+                if a.shape != t.shape or np.any(a != t):
+                    return 'NUMPY-DIFF ok packed=%s numpy=%s' % (_enc(a), _enc(t))
+        return obs
+
+    def op_p_frombool(self, pos, kv):
+        if not hasattr(self, 'parrs'):
+            self.packed_reset()
+        bits = _bits(kv.get('bits', '_'))
+        start = _optint(kv, 'start')
+
+        def ft():
+            if start is not None and (start < 0 or start > 7):
+                raise Unsupported('start')
+            return bits.copy()
+        return self._make(pos[0], lambda: PBA.from_boolean_array(bits, start_index=start), ft)
+
+    def op_p_slice(self, pos, kv):
+        p, t = self._p(pos[1])
+        lo, hi, step = _optint(kv, 'lo'), _optint(kv, 'hi'), _optint(kv, 'step')
+
+        def ft():
+            n = t.size
+            if lo is not None and (lo < 0 or lo > n):
+                raise Unsupported('start')
+            if hi is not None:
+                e = hi + n if hi < 0 else hi
+                if e > n or e < 0:
+                    raise Unsupported('stop')
+            if step is not None and step != 1:
+                raise Unsupported('step')
+            return t[lo:hi]
+        return self._make(pos[0], lambda: p[lo:hi:step], ft)
+
+    def op_p_copy(self, pos, kv):
+        p, t = self._p(pos[1])
+        return self._make(pos[0], lambda: p.copy(), lambda: t.copy())
+
+    def op_p_not(self, pos, kv):
+        p, t = self._p(pos[1])
+        return self._make(pos[0], lambda: ~p, lambda: ~t)
+
+    def op_p_bop(self, pos, kv):
+        p, t = self._p(pos[1])
+        kind, v, tv = self._operand(kv)
+        op = kv['op']
+
+        def fp():
+            return {'and': p.__and__, 'or': p.__or__, 'xor': p.__xor__}[op](v)
+
+        def ft():
+            if kind == 'pba' and (len(tv) != len(t) or v._start_index != p._start_index):
+                raise Unsupported('size / alignment')
+            return {'and': np.logical_and, 'or': np.logical_or, 'xor': np.logical_xor}[op](t, tv)
+        return self._make(pos[0], fp, ft)
+
+    # ---- observers -----------------------------------------------------
+    def op_p_len(self, pos, kv):
+        p, t = self._p(pos[0])
+        return self._both(lambda: len(p), lambda: len(t))
+
+    def op_p_arr(self, pos, kv):
+        p, t = self._p(pos[0])
+        return self._both(lambda: np.asarray(p), lambda: t, show=_enc)
+
+    def op_p_repr(self, pos, kv):
+        p, _ = self._p(pos[0])
+        return str(p)
+
+    def op_p_data(self, pos, kv):
+        p, t = self._p(pos[0])
+
+        def ft():
+            if p._start_index != 0:
+                raise Unsupported('unaligned')
+            return np.packbits(t, bitorder='little')
+        # padding bits beyond `size` are not part of the numpy view of the array: compare masked
+        def fp():
+            return p.data_array
+        obs = self._both(fp, ft, show=_encbytes)
+        if obs.startswith('NUMPY-DIFF b'):
+            d = p.data_array
+            if len(d) and np.all(np.unpackbits(d, bitorder='little')[:t.size].astype(bool) == t):
+                return _encbytes(d)       # differs only in the padding of the last byte
+        return obs
+
+    def op_p_get(self, pos, kv):
+        p, t = self._p(pos[0])
+        i = int(kv['i'])
+
+        def ft():
+            if i < 0 or i >= t.size:
+                raise IndexError(i)
+            return t[i]
+        return self._both(lambda: p[i], ft, show=lambda b: 'T' if b else 'F')
+
+    def _index(self, kv):
+        idx = _ints(kv.get('idx'))
+        if kv.get('list') == '1':
+            return idx, list(idx), (np.array(idx, dtype=np.int64))
+        return idx, np.array(idx, dtype=np.int64), np.array(idx, dtype=np.int64)
+
+    def op_p_getidx(self, pos, kv):
+        p, t = self._p(pos[0])
+        idx, key, tkey = self._index(kv)
+
+        def ft():
+            if any(i < 0 or i >= t.size for i in idx):
+                raise IndexError('range')
+            return t[tkey]
+
+        def show(a):
+            a = np.asarray(a)
+            if a.ndim != 1:
+                return 'ndim=%d:%s' % (a.ndim, _enc(np.atleast_1d(a)))
+            return _enc(a)
+        return self._both(lambda: p[key], ft, show=show)
+
+    def op_p_sum(self, pos, kv):
+        p, t = self._p(pos[0])
+        return self._both(lambda: p.sum(), lambda: t.sum(dtype=np.int64), show=lambda v: str(int(v)))
+
+    def op_p_sumshape(self, pos, kv):
+        p, t = self._p(pos[0])
+        shape = tuple(_ints(kv.get('shape')))
+        axis = _optint(kv, 'axis')
+
+        def ft():
+            if p._start_index != 0 or p._stop_index % 8 != 0:
+                raise Unsupported('unaligned')
+            if axis is not None and axis >= len(shape):
+                raise Unsupported('axis')
+            if len(shape) == 0 or int(np.prod(shape)) != t.size or shape[-1] % 8 != 0:
+                raise Unsupported('shape')
+            if axis == 0:
+                raise Unsupported('axis 0')
+            return np.sum(t.reshape(shape), axis=axis, dtype=np.int64)
+
+        def show(r):
+            r = np.asarray(r)
+            if axis is None:
+                return str(int(r))
+            return 'x'.join(str(d) for d in r.shape) + ':' + (','.join(str(int(v)) for v in r.ravel()) or '_')
+        return self._both(lambda: p.sum(shape=shape, axis=axis), ft, show=show)
+
+    def op_p_fml(self, pos, kv):
+        p, _ = self._p(pos[0])
+        first, mid, last = p._extract_first_middle_last(mask_extra=kv.get('mask') == '1')
+
+        def part(x):
+            if x[0] is None:
+                return 'None'
+            return '%s/%d/%d' % (_enc(x[0]), 0 if x[1] is None else x[1], 8 if x[2] is None else x[2])
+        return 'F=%s M=%s L=%s' % (part(first), 'None' if mid is None else _encbytes(mid), part(last))
+
+    def op_p_lut(self, pos, kv):
+        lut = PBA(size=8)._bit_count(np.arange(256, dtype=np.uint8))
+        want = [bin(i).count('1') for i in range(256)]
+        obs = ','.join(str(int(v)) for v in lut)
+        if [int(v) for v in lut] != want:
+            return 'NUMPY-DIFF ' + obs
+        return obs
+
+    def op_p_dump(self, pos, kv):
+        if not hasattr(self, 'parrs'):
+            self.packed_reset()
+        names = sorted(self.parrs)
+        obs = ','.join('%s=%s' % (n, _enc(np.asarray(self.parrs[n]))) for n in names) or '_'
+        sd = self._state_diff()
+        if sd is not None:
+            return 'NUMPY-DIFF %s %s' % (obs, sd)
+        return obs
+
+    # ---- mutation ------------------------------------------------------
+    def op_p_set(self, pos, kv):
+        p, t = self._p(pos[0])
+        i, v = int(kv['i']), kv['v'] == 'T'
+
+        def ft():
+            if i < 0 or i >= t.size:
+                raise IndexError(i)
+            t[i] = v
+        return self._both(lambda: p.__setitem__(i, v), ft, mutating=True)
+
+    def op_p_setslice(self, pos, kv):
+        p, t = self._p(pos[0])
+        lo, hi = _optint(kv, 'lo'), _optint(kv, 'hi')
+        kind, v, tv = self._operand(kv)
+
+        def ft():
+            n = t.size
+            if lo is not None and (lo < 0 or lo > n):
+                raise Unsupported('start')
+            if hi is not None:
+                e = hi + n if hi < 0 else hi
+                if e > n or e < 0:
+                    raise Unsupported('stop')
+            if kind != 'bool' and len(tv) != len(t[lo:hi]):
+                raise Unsupported('length')           # no broadcasting
+            if kind == 'pba' and (p._start_index + (lo or 0)) % 8 != v._start_index:
+                raise Unsupported('alignment')
+            t[lo:hi] = tv
+        return self._both(lambda: p.__setitem__(slice(lo, hi), v), ft, mutating=True)
+
+    def op_p_setidx(self, pos, kv):
+        p, t = self._p(pos[0])
+        idx, key, tkey = self._index(kv)
+        kind, v, tv = self._operand(kv)
+
+        def ft():
+            if any(i < 0 or i >= t.size for i in idx):
+                raise IndexError('range')
+            if kind != 'bool' and len(tv) != len(idx):
+                raise Unsupported('length')
+            t[tkey] = tv
+        return self._both(lambda: p.__setitem__(key, v), ft, mutating=True)
+
+    def op_p_iop(self, pos, kv):
+        p, t = self._p(pos[0])
+        kind, v, tv = self._operand(kv)
+        op = kv['op']
+
+        def fp():
+            {'and': p.__iand__, 'or': p.__ior__, 'xor': p.__ixor__}[op](v)
+
+        def ft():
+            if kind == 'pba' and (len(tv) != len(t) or v._start_index != p._start_index):
+                raise Unsupported('size / alignment')
+            if op == 'and':
+                t[...] &= tv
+            elif op == 'or':
+                t[...] |= tv
+            else:
+                t[...] ^= tv
+        return self._both(fp, ft, mutating=True)
+
+    def op_p_invert(self, pos, kv):
+        p, t = self._p(pos[0])
+
+        def ft():
+            t[...] = ~t
+        return self._both(lambda: p.invert(), ft, mutating=True)
+
+    def op_p_resize(self, pos, kv):
+        p, t = self._p(pos[0])
+        n = int(kv['n'])
+        name = pos[0]
+
+        def ft():
+            if n < t.size:
+                raise Unsupported('shrink')
+            if n == t.size:
+                return
+            if not t.flags.owndata:
+                raise ValueError('cannot resize this array: it does not own its data')
+            # (np.ndarray.resize(refcheck=False) semantics: keep the data, zero-fill)
+            new = np.zeros(n, dtype=np.bool_)
+            new[:t.size] = t
+            self.ptwin[name] = new
+        return self._both(lambda: p.resize(n), ft, mutating=True)
